@@ -25,6 +25,9 @@ type Step struct {
 	Depth int `json:"depth"`
 	Soft  int `json:"soft"` // 0 none
 	Hard  int `json:"hard"` // -1 none
+	// PonderAt > 0: a ponder search whose ponderhit arrives while info line number PonderAt-1 is written; the
+	// limits count from the ponderhit on, but the node counter may never pass the hard budget
+	PonderAt int `json:"ponder_at,omitempty"`
 }
 
 // Case: a game played by the engine against itself from the position after Moves; tables carry over.
@@ -192,6 +195,9 @@ func checkCase(c Case, rec *evid.Rec) (err error) {
 		var wg sync.WaitGroup
 		wg.Add(2)
 		run := func(s *search.Search, b *board.Board, o []search.Option) srch.Result {
+			if st.PonderAt > 0 {
+				return srch.RunPonder(s, b, st.PonderAt-1, o...)
+			}
 			if c.Plain {
 				return srch.RunPlain(s, b, o...)
 			}
@@ -255,6 +261,9 @@ func checkCase(c Case, rec *evid.Rec) (err error) {
 			if len(rA.Lines) > 0 && rA.Lines[len(rA.Lines)-1].Abort {
 				rec.Class("ended_at_hard_budget")
 			}
+			if st.PonderAt > 0 {
+				rec.Class("ponder_search_with_hard_budget")
+			}
 		}
 		if rA.Move == 0 {
 			break
@@ -277,7 +286,7 @@ func checkCase(c Case, rec *evid.Rec) (err error) {
 
 func TestC08(t *testing.T) {
 	evid.Main(t, "C08", func(rec *evid.Rec) {
-		rec.Rule("whole games (root + playout history, then up to 24 (quick) / 60 (thorough) engine moves) with drawn per-move limits (depth 1..10, soft nodes, hard nodes); three engine instances per game whose tables carry over: A and A' get identical requests and run CONCURRENTLY on separate goroutines while GOMAXPROCS busy goroutines load the machine (thorough: race detector on); B gets WithNodes(N_A) whenever A's search ended at its soft limit after N_A nodes, otherwise the same request. Oracle: A == A' in score, move, ponder, node count and every info line (compared by depth, score, node count and variation; wall-clock dependent fields such as time or nps are not compared); B == A likewise (its single trailing abort line excepted) on this and all later moves; Counters.Nodes <= hard budget always; in half of the games an unrelated fourth engine instance with a different table size is created, resized and searched in the same process between A's search and B's replay (results are a function of the engine's OWN state only). The replay clause is judged only when A returned a move. Non-trivial = search on a warmed table with > 500 nodes; distinct by (game prefix, table, limits)")
+		rec.Rule("whole games (root + playout history, then up to 24 (quick) / 60 (thorough) engine moves) with drawn per-move limits (depth 1..10, soft nodes, hard nodes); three engine instances per game whose tables carry over: A and A' get identical requests and run CONCURRENTLY on separate goroutines while GOMAXPROCS busy goroutines load the machine (thorough: race detector on); B gets WithNodes(N_A) whenever A's search ended at its soft limit after N_A nodes, otherwise the same request. Oracle: A == A' in score, move, ponder, node count and every info line (compared by depth, score, node count and variation; wall-clock dependent fields such as time or nps are not compared); B == A likewise (its single trailing abort line excepted) on this and all later moves; Counters.Nodes <= hard budget always, also for ponder searches (one step in eight is `go ponder` with a node budget, the ponderhit arriving from inside the writing of info line 0..4); in half of the games an unrelated fourth engine instance with a different table size is created, resized and searched in the same process between A's search and B's replay (results are a function of the engine's OWN state only). The replay clause is judged only when A returned a move. Non-trivial = search on a warmed table with > 500 nodes; distinct by (game prefix, table, limits)")
 		rec.Assume("SoftTime is not used: wall-clock limits are non-deterministic by design and outside this property")
 		rec.Rapid(t, "game", evid.Pick(2500, 8000), func(t *rapid.T) {
 			root, _ := gen.Root(t)
@@ -304,6 +313,9 @@ func TestC08(t *testing.T) {
 				default:
 					st.Depth = gen.Draw(t, 1, 6, "depth")
 					st.Hard = 30000
+				}
+				if gen.Chance(t, 1, 8, "ponder") { // `go ponder nodes N`: no soft limit, a budget the ponder phase can exhaust
+					st = Step{Depth: gen.Draw(t, 1, 6, "depth"), Hard: gen.Draw(t, 0, 3000, "hard"), PonderAt: gen.Draw(t, 1, 5, "ponderAt")}
 				}
 				c.Steps = append(c.Steps, st)
 			}
